@@ -3,6 +3,9 @@
 #define VP_SURVEY_CONTRACTS_H
 /* clang-format off */
 #define RV __CPROVER_return_value
+#ifndef SV_MAXPIPES
+#define SV_MAXPIPES 2
+#endif
 #ifndef SV_MAXWAIT
 #define SV_MAXWAIT 3
 #endif
@@ -59,7 +62,7 @@ __CPROVER_requires(__CPROVER_is_fresh(arg, sizeof(struct surv0_ctx)) && __CPROVE
 __CPROVER_requires(__CPROVER_is_fresh(aio, sizeof(nni_aio)) && MSG_PRE(SS_M) && SS_M->m_refcnt.v == 1 && CH_GHOST_PRE(&SS_M->m_body))
 __CPROVER_requires(LMQ_WF_SCALAR(&SS_C->recv_lmq) && SS_C->survey_time.v >= -1 && g_now < ((nni_time) 1 << 62))
 /* queue A = receives pending on this context, queue B = the socket's pipes (model limit: at most two) */
-__CPROVER_requires(g_qa_addr == &SS_C->recv_queue && g_qb_addr == &SS_S->pipes && g_qb.n <= 2)
+__CPROVER_requires(g_qa_addr == &SS_C->recv_queue && g_qb_addr == &SS_S->pipes && g_qb.n <= SV_MAXPIPES)
 __CPROVER_requires((g_qa.n == 0 || __CPROVER_is_fresh(g_qa.head, sizeof(nni_aio))) && (g_qb.n == 0 || SV_PIPE_PRE(g_qb.head)) && (g_qb.n != 2 || SV_PIPE_PRE(g_qb.tail)) && g_qa.n <= SV_MAXWAIT && (g_qa.n < 2 || g_qa.tail == NULL || __CPROVER_is_fresh(g_qa.tail, sizeof(nni_aio))) && VP_AIOQS_OK && VP_AIO_NOT_QUEUED(aio))
 /* id map model: the tracked key is this context's live survey id, if it has one (else nothing is tracked) */
 __CPROVER_requires(g_idm_addr == &SS_S->surveys && (SS_C->survey_id != 0 ==> g_idm_key == (uint64_t) SS_C->survey_id) && (SS_C->survey_id == 0 ==> !g_sv.idm_present))
